@@ -25,15 +25,23 @@ PREFIXES = ['C16.']
 OTHER_EXCL = ('amp_consistency', 'period_consistency', 'is_burst')
 
 
+def _int(x):
+    """total projection: a value that is not an integer (a NaN in a row the function invented) becomes the off-grid token"""
+    try:
+        return int(x) if float(x) == int(x) else 999999999
+    except (TypeError, ValueError, OverflowError):
+        return 999999999
+
+
 def project(df, e, thr=None):
     rows = []
     recs = df.to_dict('records')
     others = [c for c in df.columns if c not in OTHER_EXCL]
     for r in recs:
-        row = {'R': pj.dyadic(r['volt_rise'], e), 'D': pj.dyadic(r['volt_decay'], e), 'P': int(r['period']),
+        row = {'R': pj.dyadic(r['volt_rise'], e), 'D': pj.dyadic(r['volt_decay'], e), 'P': _int(r['period']),
                'ac': pj.rat(r['amp_consistency'], D=1000000), 'pc': pj.rat(r['period_consistency'], D=1000000),
                'ac_l': pj.limbs(r['amp_consistency']), 'pc_l': pj.limbs(r['period_consistency']),
-               'lab': bool(r['is_burst']), 'fp': tt.col_fp([float(r[c]) for c in others])}
+               'lab': bool(r['is_burst']) if r['is_burst'] == r['is_burst'] else False, 'fp': tt.col_fp([float(r[c]) for c in others])}
         if row['R'] is None or row['D'] is None:
             row['R'] = row['D'] = 999999999
         rows.append(row)
@@ -71,6 +79,7 @@ def run_tv(ctx, n_cases, max_len=800):
                 continue
             if len(df) < 4:
                 continue
+            df = pj.relabel(df, i // 4)          # the user's table: its row labels are not part of the abstract table
             th2 = dict(th)
             red = 0.0
             if mode == 'lowered':
@@ -114,7 +123,7 @@ def run_tv(ctx, n_cases, max_len=800):
                      'same_thr': th2 == th, 'lowered': all(th2[k] <= th[k] for k in th if k.endswith('_threshold')) and th2.get('min_n_cycles') == th.get('min_n_cycles'),
                      'pre': pre, 'post': tt.snapshot(df), 'raised': raised})
         lab = [r['lab'] for r in inp]
-        metas.append({'kind': c['kind'], 'centre': o['center_extrema'], 'return_samples': o['return_samples'], 'mode': mode, 'reduction': red,
+        metas.append({'kind': c['kind'], 'labels': pj.LABELLINGS[(i // 4) % 4], 'centre': o['center_extrema'], 'return_samples': o['return_samples'], 'mode': mode, 'reduction': red,
                       'cycles': len(df), 'bursting': int(sum(lab)), 'thresholds': th, 'n': len(c['sig']), 'fs': c['fs']})
     verdicts = tv.validate(ctx, 'Trace_Edges', recs, label='Trace_Edges')
     for r, m, fails in zip(recs, metas, verdicts):
